@@ -1,17 +1,22 @@
 #!/usr/bin/env python3
 """mkmutant.py NAME FILE OLD NEW [FILE OLD NEW ...] - write /verif/mutants/NAME.diff replacing the
-(unique) occurrence of OLD by NEW in /repo/FILE (relative path). /repo itself is not modified."""
-import sys, difflib, os
+(unique) occurrence of OLD by NEW in /repo/FILE (relative path); several triples may name the same
+file. /repo itself is not modified."""
+import sys, difflib
 name = sys.argv[1]
 args = sys.argv[2:]
-out = []
+if len(args) % 3:
+    sys.exit(f"{name}: arguments must be FILE OLD NEW triples")
+texts = {}
 for i in range(0, len(args), 3):
     f, old, new = args[i], args[i+1], args[i+2]
+    t = texts.get(f) or open('/repo/' + f).read()
+    if t.count(old) != 1:
+        sys.exit(f"{name}: pattern occurs {t.count(old)} times in {f}")
+    texts[f] = t.replace(old, new)
+out = []
+for f, t in texts.items():
     s = open('/repo/' + f).read()
-    if s.count(old) != 1:
-        sys.exit(f"{name}: pattern occurs {s.count(old)} times in {f}")
-    t = s.replace(old, new)
-    d = difflib.unified_diff(s.splitlines(True), t.splitlines(True), 'a/' + f, 'b/' + f)
-    out.append(''.join(d))
+    out.append(''.join(difflib.unified_diff(s.splitlines(True), t.splitlines(True), 'a/' + f, 'b/' + f)))
 open(f'/verif/mutants/{name}.diff', 'w').write(''.join(out))
 print("wrote", name)
